@@ -308,8 +308,8 @@ class History(RuleBasedStateMachine):
 def run_shard(ctx):
     History.stats = ctx.stats
     BRAND_NEW_ENABLED[0] = ctx.shard < 2 or not ctx.quick()
-    n = ctx.scale(8, 120)
-    steps = ctx.scale(14, 50)
+    n = ctx.scale(8, 30)
+    steps = ctx.scale(14, 40)
     machine = hypothesis.seed(ctx.hyp_seed)(History)
     try:
         run_state_machine_as_test(machine, settings=settings(max_examples=n, stateful_step_count=steps, deadline=None, database=None,
